@@ -30,7 +30,13 @@ def cases(ctx):
     # the limit must be honoured whatever value it is set to, also above the default of 1000
     yield {'P': chain_pda(1100), 'words': ['a'], 'limits': [1300, 1000]}
     for i in range(700 if not thorough else 6000):
-        P = gen.ambiguous_stack_pda(rng) if i % 20 == 3 else gen.push_loop_pda(rng) if i % 20 == 11 else gen.random_pda(rng)
+        P = gen.ambiguous_stack_pda(rng) if i % 20 == 3 else gen.push_loop_pda(rng) if i % 20 == 11 else \
+            gen.pop_loop_pda(rng) if i % 20 == 15 else gen.random_pda(rng)
+        if i % 20 == 18:        # the output of a library normal form (drain state with popping epsilon self-loops) as input
+            try:
+                P = dict(enc.canon_pda(PA.pda_to_accept_on_empty_stack(enc.build_pda(P)), False), dd=True)
+            except Exception:
+                pass
         ws = gen.all_words(P['Sigma'], 3 if len(P['Sigma']) <= 2 else 2)
         if len(ws) > 7:
             ws = ws[:3] + rng.sample(ws[3:], 4)
